@@ -1,4 +1,4 @@
 From Coq Require Import ExtrOcamlBasic.
-From Slock Require Import Engine.Types Engine.Queues Engine.Timers Engine.Engine Engine.Engine2.
+From Slock Require Import Engine.Types Engine.Queues Engine.Timers Engine.Engine Engine.Engine2 Engine.Ack.
 Extraction Language OCaml.
-Extraction "model.ml" step init_db wq_items getl aget make_cmd.
+Extraction "model.ml" astep init_astate step init_db wq_items getl aget make_cmd.
